@@ -71,10 +71,16 @@ func c36payload(n *world.Node, content string) []byte {
 	case c36Match4:
 		m := self
 		m.Addr = net.IP(append([]byte{}, n.IP.To4()...))
+		if n.IP.To4() == nil {
+			m.Addr = net.IP(append([]byte{}, n.IP.To16()...)) // no 4-byte form of an IPv6 address
+		}
 		return serf.VEncode(serf.VMsgConflictResponse, &m)
 	case c36OtherAddr:
 		m := self
 		m.Addr = world.NodeIP(9)
+		if n.IP.To4() == nil {
+			m.Addr = net.ParseIP("fd00::9")
+		}
 		return serf.VEncode(serf.VMsgConflictResponse, &m)
 	case c36OtherPort:
 		m := self
@@ -148,15 +154,30 @@ type c36case struct {
 	Timing string   `json:"timing"`
 }
 
+// c36v6: the node advertises an IPv6 address (and the conflicting address is another IPv6 address).
+var c36v6 bool
+
 func c36run(ctx *vc.Ctx) {
+	c36family(ctx, false)
+	c36family(ctx, true)
+}
+
+func c36family(ctx *vc.Ctx, v6 bool) {
+	c36v6 = v6
+	defer func() { c36v6 = false }()
 	kinds := c36kinds(ctx.Thorough())
 	maxK := 4
 	if ctx.Thorough() {
 		maxK = 5
 	}
 	idx := 0
+	fam := ""
+	if v6 {
+		fam = "ipv6/"
+		maxK -= 2 // the address family does not interact with the number of peers: smaller multisets
+	}
 	for k := 0; k <= maxK; k++ {
-		scn := ctx.Scn(fmt.Sprintf("peers=%d", k), "cases")
+		scn := ctx.Scn(fmt.Sprintf("%speers=%d", fam, k), "cases")
 		// all multisets of size 0..k over kinds: non-decreasing index vectors
 		for m := 0; m <= k; m++ {
 			sel := make([]int, m)
@@ -225,11 +246,23 @@ func c36one(ctx *vc.Ctx, scn *vc.Scenario, k int, kinds []c36kind, sel []int, or
 	var gotShutdown, earlyShutdown, lateChanged bool
 	var stateAfter string
 	x := vsched.Run(vsched.RunOpts{MaxSteps: 400000}, func() {
-		n, err := world.NewNode("a", 0, func(c *serf.Config) { c.EnableNameConflictResolution = true })
+		n, err := world.NewNode("a", 0, func(c *serf.Config) {
+			c.EnableNameConflictResolution = true
+			if c36v6 {
+				c.MemberlistConfig.AdvertiseAddr = "fd00::a"
+			}
+		})
 		if err != nil {
 			panic(err)
 		}
 		defer n.S.Shutdown()
+		if c36v6 {
+			n.IP = n.S.LocalMember().Addr
+			if n.IP.To4() != nil || n.IP == nil {
+				harnessErr = fmt.Sprintf("set-up: the node does not advertise an IPv6 address (%v)", n.IP)
+				return
+			}
+		}
 		if k > 0 {
 			meta := serf.VEncodeTags(n.S, nil)
 			var peers []world.Peer
